@@ -219,8 +219,13 @@ func genFeeOp(r *RNG, out *Out) string {
 		return fmt.Sprintf("bips %s %d", amt, bips)
 	default:
 		small := func() *big.Int {
-			if r.Chance(80) {
+			if r.Chance(72) {
 				return big.NewInt(int64(1 + r.Intn(1000)))
+			}
+			if r.Chance(40) {
+				// around the uint64 / int64 limits (a stored net asset value's volume is a uint64)
+				x := new(big.Int).Lsh(big.NewInt(1), uint(63+r.Intn(2)))
+				return x.Add(x, big.NewInt(int64(r.Intn(3)-2)))
 			}
 			x := r.BigBoundary()
 			if x.Sign() == 0 {
@@ -255,7 +260,13 @@ func genFeeOp(r *RNG, out *Out) string {
 		if same {
 			sm = "1"
 		}
-		return fmt.Sprintf("csf fee=%s conv=%s others=%s nav=%s:%s bips=%d same=%s", fee, conv, JoinOr(others, "|"), navP, navA, bips, sm)
+		line := fmt.Sprintf("csf fee=%s conv=%s others=%s nav=%s:%s bips=%d same=%s", fee, conv, JoinOr(others, "|"), navP, navA, bips, sm)
+		if r.Chance(35) {
+			// net asset values looked up from the marker module (uint64 volumes) instead of the request
+			out.Count("csf:navsrc=state")
+			line += " navsrc=state"
+		}
+		return line
 	}
 }
 
